@@ -27,6 +27,8 @@ pub struct C15 {
     /// 0 = library default, 1 = exactly the largest payload, 2 = largest payload + 1
     pub max_len_mode: u8,
     pub use_ctx: bool,
+    /// after this many values, at a frame boundary with no read in flight: into_parts() + with_buffer() round trip
+    pub rewrap_at: Option<u32>,
     pub src: Vec<Step>,
     pub caller: Vec<Decide>,
 }
@@ -106,18 +108,21 @@ impl<'s> FamVisitor for Runner<'s> {
         if s.init_buf > 0 {
             self.obs.borrow_mut().fault(fk::garbage_buffer);
         }
-        match s.max_len_mode {
+        let apply_knob = |reader: &mut AsyncReader<SimAsyncSource>, obs: &Rc<RefCell<Obs>>| match s.max_len_mode {
             1 => {
                 reader.set_max_len(max_payload as u32);
-                self.obs.borrow_mut().fault(fk::max_len_knob);
-                self.obs.borrow_mut().probe(pb::frame_len_eq_max_len);
+                obs.borrow_mut().fault(fk::max_len_knob);
+                obs.borrow_mut().probe(pb::frame_len_eq_max_len);
             }
             2 => {
                 reader.set_max_len(max_payload as u32 + 1);
-                self.obs.borrow_mut().fault(fk::max_len_knob);
+                obs.borrow_mut().fault(fk::max_len_knob);
             }
             _ => {}
-        }
+        };
+        apply_knob(&mut reader, &self.obs);
+        let mut at_boundary = true; // no read has consumed bytes of a frame that was not returned yet
+        let mut rewrapped = false;
         let mut caller = Caller::new(s.caller.clone());
         let (_cw, waker) = new_waker();
         let mut cx = Context::from_waker(&waker);
@@ -131,6 +136,15 @@ impl<'s> FamVisitor for Runner<'s> {
         let mut cancels_this_frame = 0u32;
         let mut ctx_unit = ();
         loop {
+            if at_boundary && !rewrapped && s.rewrap_at == Some(got as u32) {
+                // hand the parts to a fresh reader: legal at a frame boundary, must be invisible
+                let (src, buf) = reader.into_parts();
+                reader = AsyncReader::with_buffer(src, buf);
+                apply_knob(&mut reader, &self.obs);
+                rewrapped = true;
+                self.obs.borrow_mut().probe(pb::rewrap_at_boundary);
+            }
+            at_boundary = false;
             self.obs.borrow_mut().event(ev::ISSUE, got as u64);
             let outcome: Option<Res> = {
                 let mut fut: std::pin::Pin<Box<dyn Future<Output = Res> + '_>> = if s.use_ctx {
@@ -230,6 +244,7 @@ impl<'s> FamVisitor for Runner<'s> {
                     }
                     got += 1;
                     cancels_this_frame = 0;
+                    at_boundary = true;
                 }
                 Res::CleanEnd => {
                     if !tail_clean {
@@ -322,6 +337,7 @@ impl Scenario for C15 {
             .set("init_buf", self.init_buf)
             .set("max_len_mode", self.max_len_mode as u32)
             .set("use_ctx", self.use_ctx)
+            .set("rewrap_at", self.rewrap_at)
             .set("src", lane_to_json(&self.src))
             .set("caller", decides_to_json(&self.caller))
     }
@@ -334,6 +350,7 @@ impl Scenario for C15 {
             init_buf: j.get("init_buf").and_then(|c| c.as_u64()).unwrap_or(0) as u32,
             max_len_mode: j.get("max_len_mode").and_then(|c| c.as_u64()).unwrap_or(0) as u8,
             use_ctx: j.get("use_ctx").and_then(|c| c.as_bool()).unwrap_or(false),
+            rewrap_at: j.get("rewrap_at").and_then(|c| c.as_u64()).map(|c| c as u32),
             src: lane_from_json(j.get("src"))?,
             caller: decides_from_json(j.get("caller"))?,
         })
@@ -383,6 +400,9 @@ impl Scenario for C15 {
         }
         if self.use_ctx {
             out.push(C15 { use_ctx: false, ..self.clone() });
+        }
+        if self.rewrap_at.is_some() {
+            out.push(C15 { rewrap_at: None, ..self.clone() });
         }
         if self.family != Ty::Str && self.family != Ty::U64 {
             // simpler payload type, same shapes of frames
@@ -437,12 +457,12 @@ fn stream_len(values: &[ValSpec]) -> usize {
 }
 
 fn base(family: Ty, values: Vec<ValSpec>) -> C15 {
-    C15 { family, values, cut: None, init_buf: 0, max_len_mode: 0, use_ctx: false, src: vec![], caller: vec![] }
+    C15 { family, values, cut: None, init_buf: 0, max_len_mode: 0, use_ctx: false, rewrap_at: None, src: vec![], caller: vec![] }
 }
 
 fn generate_single(r: &mut Rng, tier: Tier) -> C15 {
     let family = *r.pick(IO_TYS);
-    let big = tier == Tier::Thorough && r.chance(1, 40);
+    let big = r.chance(1, if tier == Tier::Thorough { 40 } else { 400 });
     let nframes = if big { r.range(1, 2) } else { 1 + r.below(8) } as usize;
     // size profile of this run
     let profile = r.below(4);
@@ -520,6 +540,7 @@ fn generate_single(r: &mut Rng, tier: Tier) -> C15 {
         init_buf: if r.chance(1, 3) { r.range(1, 300) as u32 } else { 0 },
         max_len_mode: if r.chance(1, 4) { 1 + r.below(2) as u8 } else { 0 },
         use_ctx: r.chance(1, 8),
+        rewrap_at: if r.chance(1, 6) { Some(r.below(nframes as u64 + 1) as u32) } else { None },
         src,
         caller,
     }
